@@ -133,6 +133,9 @@ impl R2ROperator<Triple, Vec<PhysicalOperator>, Vec<(String, String)>> for Simpl
     }
 
     fn add(&mut self, data: Triple) {
+        // A fact derived in the previous cycle that now arrives as a raw item is
+        // asserted data: it must not be evicted with the stale derived facts.
+        self.derived_triples.retain(|derived| derived != &data);
         self.item.add_triple(data);
     }
 
